@@ -172,6 +172,62 @@ def run(ctx, model):
         if i < 2:
             ctx.sample({"identity": {k: (v.hex() if isinstance(v, bytes) else v) for k, v in f.items()}, "list_identity": impl["results"][1][:300]})
     tr.flush(ctx, model, lines, pend)
+    run_identity_changes(ctx, model)
+
+
+def run_identity_changes(ctx, model):
+    """one driver object, several devices / device states: open, get_plc_info / get_module_info / _list_identity, close,
+    the device behind the address is replaced by another one (other vendor, type, revision, key switch, serial, name),
+    open again, ask again.  Every answer is the identity of the device that is there NOW."""
+    import pycomm3.cip_driver as cd
+    from pycomm3 import LogixDriver
+    from pycomm3.cip import KEYSWITCH
+    from props import transcripts as trn
+    rng = ctx.rng
+    for i in range(ctx.budget(25, 250)):
+        shared = trn.SharedNet(model, {})
+        old_sock = cd.Socket
+        cd.Socket = lambda *a, **k: trn.NetSocket(shared)
+        try:
+            class Drv(LogixDriver):
+                open = cd.CIPDriver.open          # session only: no controller initialisation
+            d = Drv("10.0.0.1/bp/0")
+            devices = [gen_fields(rng) for _ in range(rng.choice([2, 3]))]
+            if rng.random() < 0.5:
+                # the same device with only the key switch / status word turned
+                devices[1] = dict(devices[0], status=rng.choice([0x3060, 0x3170, 0x2060, 0x1060, rng.randrange(65536)]))
+            micro = rng.random() < 0.3
+            d._micro800 = micro
+            ctx.case("identity-changes", ("idch", i))
+            for k, f in enumerate(devices):
+                scn = fakesock.base_scenario(vendor=f["vendor"], ptype=f["ptype"], pcode=f["pcode"], major=f["major"], minor=f["minor"],
+                                             status=f["status"], serial=f["serial"], name=f["name"], state=f["state"], ip=f["ip"])
+                assert model.ask("target.new " + scn) == "ok"
+                case = {"index": i, "device_number": k, "devices": [{kk: (vv.hex() if isinstance(vv, bytes) else vv) for kk, vv in x.items()} for x in devices[:k + 1]]}
+                try:
+                    d.open()
+                    wi = dict(expected(f, False))
+                    st = struct.pack("<H", f["status"])
+                    wi["keyswitch"] = KEYSWITCH.get(st[0], {}).get(st[1], "UNKNOWN")
+                    for rep in range(2):
+                        got = d.get_plc_info()
+                        if sx.val(got) != sx.val(wi):
+                            ctx.violation("plc-info-of-an-earlier-device", case, "expected %s got %s" % (sx.val(wi)[:300], sx.val(got)[:300]))
+                            break
+                    gm = d.get_module_info(0)
+                    if sx.val(gm) != sx.val(expected(f, False)):
+                        ctx.violation("module-info-of-an-earlier-device", case, "expected %s got %s" % (sx.val(expected(f, False))[:300], sx.val(gm)[:300]))
+                    gl = d._list_identity()
+                    if sx.val(gl) != sx.val(expected(f, True)):
+                        ctx.violation("list-identity-of-an-earlier-device", case, "expected %s got %s" % (sx.val(expected(f, True))[:300], sx.val(gl)[:300]))
+                    d.close()
+                except BaseException as e:  # noqa
+                    if isinstance(e, (KeyboardInterrupt, SystemExit)):
+                        raise
+                    ctx.violation("identity-call-raises:" + core.exn_class(e), case, repr(e)[:200])
+                    break
+        finally:
+            cd.Socket = old_sock
 
 
 def replay(ctx, model, data):
